@@ -177,11 +177,13 @@ theorem handleHvr_vstep (C : Crypto) (L : Loc) (e : Ep) (b : Bytes) :
     VSteps C L (view e) (view (handleHvr C L e b).ep) := by
   unfold handleHvr
   split
-  · dsimp only
-    split
-    · exact VSteps.of_eq (by simp [view, hsRecord])
-    · exact VSteps.of_eq (by simp [view, ok, hsRecord])
   · exact .refl _
+  · split
+    · dsimp only
+      split
+      · exact VSteps.of_eq (by simp [view, hsRecord])
+      · exact VSteps.of_eq (by simp [view, ok, hsRecord])
+    · exact .refl _
 
 theorem handleServerHello_vstep (C : Crypto) (L : Loc) (e : Ep) (b : Bytes) :
     VSteps C L (view e) (view (handleServerHello C e b).ep) := by
@@ -219,22 +221,24 @@ theorem handleServerHelloDone_vstep (C : Crypto) (L : Loc) (e : Ep) :
   unfold handleServerHelloDone
   split
   · exact .refl _
-  · rename_i hk
-    split
-    · exact .one (.conn _ .failed (by decide))
-    · rename_i hver
-      dsimp only
+  · split
+    · exact .refl _
+    · rename_i hk
       split
-      · exact VSteps.of_eq (by simp [view, ok])
-      · rename_i k hd
-        obtain ⟨pk, cr, sr, h1, h2, h3, h4⟩ := deriveKeys_some hd
-        simp only [emitMsg_peerPub, emitMsg_clientRandom, emitMsg_serverRandom, emitMsg_ems] at h1 h2 h3 h4
-        have s1 := VStep.keys (C := C) (L := L) (view e) pk cr sr _ e.ctx.ems k
-          (by simpa [view] using hk) (by intro hc; simp [view] at hc ⊢; simpa [hc] using hver)
-          (by simpa [view] using h1) (by simpa [view] using h2) h4
-        have s2 := VStep.sent (C := C) (L := L) _ k (emitMsg e.ctx dtlsHtClientKeyExchange L.ckeBody false).2.transcript _ true
-          (show ({ view e with keys := some k, evs := .keys L.pub pk cr sr e.ctx.ems (emitMsg e.ctx dtlsHtClientKeyExchange L.ckeBody false).2.transcript k :: (view e).evs } : View).keys = some k from rfl) rfl
-        exact (VSteps.one s1).step (by simpa [view, ok, h1, h2, h3] using s2)
+      · exact .one (.conn _ .failed (by decide))
+      · rename_i hver
+        dsimp only
+        split
+        · exact VSteps.of_eq (by simp [view, ok])
+        · rename_i k hd
+          obtain ⟨pk, cr, sr, h1, h2, h3, h4⟩ := deriveKeys_some hd
+          simp only [emitMsg_peerPub, emitMsg_clientRandom, emitMsg_serverRandom, emitMsg_ems] at h1 h2 h3 h4
+          have s1 := VStep.keys (C := C) (L := L) (view e) pk cr sr _ e.ctx.ems k
+            (by simpa [view] using hk) (by intro hc; simp [view] at hc ⊢; simpa [hc] using hver)
+            (by simpa [view] using h1) (by simpa [view] using h2) h4
+          have s2 := VStep.sent (C := C) (L := L) _ k (emitMsg e.ctx dtlsHtClientKeyExchange L.ckeBody false).2.transcript _ true
+            (show ({ view e with keys := some k, evs := .keys L.pub pk cr sr e.ctx.ems (emitMsg e.ctx dtlsHtClientKeyExchange L.ckeBody false).2.transcript k :: (view e).evs } : View).keys = some k from rfl) rfl
+          exact (VSteps.one s1).step (by simpa [view, ok, h1, h2, h3] using s2)
 
 theorem handleMsg_vstep (C : Crypto) (L : Loc) (e : Ep) (t : Nat) (b raw : Bytes) :
     VSteps C L (view e) (view (handleMsg C L e t b raw).ep) := by
